@@ -605,3 +605,10 @@ UNITS["Quote.tail"] = dict(file=QI, anchor=r"if \(nb > 0\) \{", kind="block", ru
 UNITS["parseStringInplace.classify"] = dict(
     file=QI, anchor=r"VecType v\(src\);\n    block = StringBlock\{", kind="span", end=r"\};", rules=PSI_RULES,
     must_fire=["vec-load", "sb-literal", "vec-cmp"])
+
+UNITS["MemoryPoolAllocator.AlignBuffer"] = dict(file=AL, anchor=r"static inline void\* AlignBuffer\(", cname="AlignBuffer",
+    callmacro="#define AlignBuffer(b, s) (AlignBuffer)(b, &(s))")
+
+UNITS["WriteBuffer.ToString"] = dict(file="include/sonic/writebuffer.h", anchor=r"sonic_force_inline const char\* ToString\(\) const", cname="WriteBuffer_ToString", self="WriteBuffer",
+    rules=[("wb-grow", r"stack_\.Grow\(", "Stack_Grow(&self->stack_, "), ("wb-end", r"stack_\.template End<char>\(\)", "Stack_End_char(&self->stack_)"),
+           ("wb-begin", r"stack_\.Begin<char>\(\)", "Stack_Begin_char(&self->stack_)")], must_fire=["wb-grow", "wb-end", "wb-begin"])
